@@ -282,7 +282,31 @@ func (e *enc) mergeInto(b *ssa.BasicBlock, r string) {
 // ---- name resolution for contract clauses ----
 
 // resolveLocal finds the SSA value holding local variable `name` at the head of block at.
+// cellOf: variables that are captured or address-taken live in an Alloc cell for their whole life.
+func (e *enc) cellOf(name string) (ssa.Value, bool) {
+	var found ssa.Value
+	n := 0
+	for _, b := range e.f.Blocks {
+		for _, ins := range b.Instrs {
+			if a, ok := ins.(*ssa.Alloc); ok && a.Comment == name {
+				if _, isStruct := a.Type().Underlying().(*types.Pointer).Elem().Underlying().(*types.Struct); isStruct && !a.Heap {
+					continue
+				}
+				found = a
+				n++
+			}
+		}
+	}
+	if n == 1 {
+		return found, true
+	}
+	return nil, false
+}
+
 func (e *enc) resolveLocal(name string, at *ssa.BasicBlock) (ssa.Value, bool, bool) {
+	if c, ok := e.cellOf(name); ok {
+		return c, true, true
+	}
 	for b := at; b != nil; b = b.Idom() {
 		for i := len(b.Instrs) - 1; i >= 0; i-- {
 			switch x := b.Instrs[i].(type) {
@@ -323,6 +347,9 @@ func (e *enc) resolveLocal(name string, at *ssa.BasicBlock) (ssa.Value, bool, bo
 
 // resolveLocalAtEnd: like resolveLocal but including the definitions inside block at itself.
 func (e *enc) resolveLocalAtEnd(name string, at *ssa.BasicBlock) (ssa.Value, bool, bool) {
+	if c, ok := e.cellOf(name); ok {
+		return c, true, true
+	}
 	for i := len(at.Instrs) - 1; i >= 0; i-- {
 		switch x := at.Instrs[i].(type) {
 		case *ssa.DebugRef:
@@ -343,6 +370,9 @@ func (e *enc) resolveLocalAtEnd(name string, at *ssa.BasicBlock) (ssa.Value, boo
 
 // resolveLocalBefore: the value of a local just before instruction idx of block at.
 func (e *enc) resolveLocalBefore(name string, at *ssa.BasicBlock, idx int) (ssa.Value, bool, bool) {
+	if c, ok := e.cellOf(name); ok {
+		return c, true, true
+	}
 	for i := idx - 1; i >= 0 && i < len(at.Instrs); i-- {
 		switch x := at.Instrs[i].(type) {
 		case *ssa.DebugRef:
@@ -377,6 +407,24 @@ func (e *enc) paramEnv() *cenv {
 	for _, p := range e.f.Params {
 		env.vars[p.Name()] = cval{e.val(p), e.sortOf(p.Type()), p.Type()}
 	}
+	// captured variables of a closure: their current content
+	if len(e.f.FreeVars) > 0 {
+		base := env.lookup
+		env.lookup = func(name string) (cval, bool) {
+			for _, fv := range e.f.FreeVars {
+				if fv.Name() == name {
+					e.val(fv)
+					if l, ok := e.locs[fv]; ok && l.kind != "struct" {
+						return cval{e.loadIn(l, env.st), l.sort, l.t}, true
+					}
+				}
+			}
+			if base != nil {
+				return base(name)
+			}
+			return cval{}, false
+		}
+	}
 	return env
 }
 
@@ -402,6 +450,15 @@ func (e *enc) entryAssumptions() {
 			continue
 		}
 		e.assume(t)
+	}
+	for _, c := range e.fc.Assumes {
+		t, err := env.boolTerm(c.Expr)
+		if err != nil {
+			e.contractError(c, err)
+			continue
+		}
+		e.assume(t)
+		e.assumptions[fmt.Sprintf("%s assumes %s: %s", e.key, c.Label, c.Src)] = true
 	}
 }
 
